@@ -975,6 +975,40 @@ func c17Families(sp *spaceCtx, thorough bool) map[string][]string {
 			}
 		}
 	}
+	// no step anywhere: the keys branch at every 4-bit position (all strings of
+	// length L over bytes whose high and low nibble both vary), so the inner-prefix
+	// array is empty until a common prefix is prepended
+	for _, nib := range [][]byte{{1, 2}, {1, 2, 0xf}, {0, 7, 8, 0xf}} {
+		var ab []byte
+		for _, hi := range nib {
+			for _, lo := range nib {
+				ab = append(ab, hi<<4|lo)
+			}
+		}
+		maxL := 5
+		if len(ab) > 4 {
+			maxL = 3
+		}
+		if len(ab) > 9 {
+			maxL = 2
+		}
+		for L := 1; L <= maxL; L++ {
+			var keys []string
+			var gen func(p string, d int)
+			gen = func(p string, d int) {
+				if d == 0 {
+					keys = append(keys, p)
+					return
+				}
+				for _, c := range ab {
+					gen(p+string([]byte{c}), d-1)
+				}
+			}
+			gen("", L)
+			sort.Strings(keys)
+			fams[fmt.Sprintf("dense-nibbles(%d symbols,L=%d)", len(ab), L)] = keys
+		}
+	}
 	// every node has a long step: binary tree of depth d with 40-byte runs between branches
 	var rec func(prefix string, d int, out *[]string)
 	rec = func(prefix string, d int, out *[]string) {
@@ -1050,7 +1084,7 @@ func c17Families(sp *spaceCtx, thorough bool) map[string][]string {
 func runC17(r *h.Run) {
 	thorough := r.Tier == "thorough"
 	sp := newSpaceCtx(r.Seed)
-	r.Rule = "filter mode, nil values, in every option form that asks for it (no Opt argument and all 24 combinations of DedupValue in {nil,false,true} x InnerPrefix, LeafPrefix, Complete in {nil,false} on the small sets; no-Opt, all-explicit-false and Complete=false alone on the large families): all subsets of U(Sigma4,2) up to the tier's size (K(U85,3) in thorough), all scaffolds of the tier, and adversarial families (binary caterpillars n<=5000 with runs 0..3 and 16000 bytes, f-ary caterpillars (every node the same f-label bitmap) for every f = 2..16 x every level count 1..30 (thorough 1..120) x low/high nibble, every-node-has-a-long-step trees, fan-out-11 byte nodes, all-distinct label bitmaps, testkeys sets, regular sets); for every explored K and every prefix P of the tier's list (1..16000 bytes of each alphabet symbol) the pair (K, P+K); oracle: len(Marshal) <= 8n+256 for both, |len(K) - len(P+K)| <= 24. A state is a distinct key set; non-trivial = at least 2 keys"
+	r.Rule = "filter mode, nil values, in every option form that asks for it (no Opt argument and all 24 combinations of DedupValue in {nil,false,true} x InnerPrefix, LeafPrefix, Complete in {nil,false} on the small sets; no-Opt, all-explicit-false and Complete=false alone on the large families): all subsets of U(Sigma4,2) up to the tier's size (K(U85,3) in thorough), all scaffolds of the tier, and adversarial families (binary caterpillars n<=5000 with runs 0..3 and 16000 bytes, dense-nibble sets without any step (all strings of length L over 4 / 9 / 16 bytes whose nibbles both vary), f-ary caterpillars (every node the same f-label bitmap) for every f = 2..16 x every level count 1..30 (thorough 1..120) x low/high nibble, every-node-has-a-long-step trees, fan-out-11 byte nodes, all-distinct label bitmaps, testkeys sets, regular sets); for every explored K and every prefix P of the tier's list (1..16000 bytes of each alphabet symbol) the pair (K, P+K); oracle: len(Marshal) <= 8n+256 for both, |len(K) - len(P+K)| <= 24. A state is a distinct key set; non-trivial = at least 2 keys"
 	r.Assumptions = []string{"tolerance 24 bytes for a lift: one root step (2 bytes), element count, one presence bit and varint / length-prefix growth; stored key material would add |P| >= 100 for the prefixes that decide"}
 	prefixes := c17Prefixes(sp.sigma, thorough)
 	r.Bounds["prefixes"] = len(prefixes)
